@@ -905,10 +905,23 @@ class Unit:
     def __rtruediv__(self, other: Any) -> Quantity:
         """other / self"""
         if isinstance(other, Rational):
-            return other * self ** -1
+            return self._rdiv(other)
         if isinstance(other, Real):
-            return Decimal(other) * self ** -1
+            return self._rdiv(Decimal(other))
         return NotImplemented
+
+    def _rdiv(self, num: Rational) -> Quantity:
+        """num / self"""
+        # The resulting quantity may get quantized. Therefore we
+        # have to calculate the final amount before creating the result!
+        res_def = UnitDefT(((self, -1),))
+        try:
+            amnt, unit = _amnt_and_unit_from_term(res_def)
+        except KeyError:
+            raise UndefinedResultError(operator.pow,
+                                       self._qty_cls.__name__, -1) \
+                from None
+        return (num * amnt) * unit
 
     def __pow__(self, exp: Any) -> Union[Quantity, Rational]:
         """self ** exp"""
@@ -1704,8 +1717,10 @@ class Quantity(metaclass=QuantityMeta):
 
     def _scaled_pow(self, exp: int, factor: Rational) -> Quantity:
         """factor * self ** exp"""
-        if exp == 0 or exp == 1:
-            return factor * self.amount ** exp * self.unit ** exp
+        if exp == 0:
+            return factor * ONE
+        if exp == 1:
+            return self.__class__(factor * self.amount, self.unit)
         # The resulting quantity may get quantized. Therefore we
         # have to calculate the final amount before creating the result!
         res_def = UnitDefT(((self.unit, exp),))
